@@ -24,22 +24,29 @@ import tempfile
 
 import numpy as np
 
-from mc import kernel, spaces as S
+from mc import build, kernel, spaces as S
 from mc.kernel import Space
 
 PROPERTY = "C19"
 RULE = (
-    "history: every subset (incl. empty) of a 4 (quick) / 5 (thorough) file universe with nested folders, decoys and an empty "
-    "folder x 5 constructors (from_swc, LazyLoadingTrees from list / from generator, deprecated path list lazy / eager); BFS over "
-    "access histories to depth 3 / 4, canonical state = set of files read + per-file open counts + cache occupancy; events = "
-    "{population, every slice with a distinct index list, Population(slice), nested slices, chains of the cache and slices "
-    "(wrapped / bare), every filter subset, PopulationTransform} x {len, every index in [-m-1, m], full iteration, every partial "
-    "iteration}.  index-slice: every subset of a 5 / 7 file universe, every slice (a, b in None + [-n-2, n+2], 5 / 7 steps) x every "
-    "index, int and numpy int keys.  chains: every composition of N <= 6 / 8 into <= 4 parts (zeros allowed) x 5 member kinds x "
-    "{list, tuple, generator} x every index in [-N-1, N] in two access orders.  populations: every ordered pair of subsets of a "
-    "4 / 5 file universe for two roots (+ one root, + three roots over 2 / 3 files) x {intersect, plain, check_same} x "
-    "{list, generator} arguments x creation order; rows, len, slices, to_population in both access orders, labels.  map-transform: "
-    "real process pool on 3 / 16 layouts x pool modes.  Non-trivial = at least one tree in the container; distinct = distinct case."
+    "history: every subset (incl. empty) of a 4 (quick) / 5 (thorough) file universe with nested folders, decoy files, an empty folder and "
+    "a folder named like a file x 5 constructors (from_swc, LazyLoadingTrees from a list / from a generator, deprecated path list lazy / eager); "
+    "BFS over access histories (depth bound 3 / 4; the frontier empties earlier: complete reachable graph), canonical state = files read + "
+    "per-file open counts + cache occupancy; events = {population, every slice with a distinct index list, Population(slice), nested slices, "
+    "chains of the cache and slices given as list / tuple / generator (wrapped in a Population and bare), every filter subset, "
+    "PopulationTransform} x {len, every index in [-m-1, m] (int and numpy int), full iteration, every partial iteration}; quick runs the full "
+    "alphabet for from_swc and eager and a core alphabet (population, slices, Population(slice), 3 chains) for the other constructors; up to 4 "
+    "trees handed out earlier are re-inspected after every later operation; a violating transition is reported and not expanded.  "
+    "two-populations: two populations alive at once over the same / over different directories (every pair of subsets of 2 / 3 files), BFS over "
+    "the same accesses on either and on chains across both.  index-slice: every subset of a 5 / 7 file universe, every slice (bounds None and "
+    "[-n-2, n+2], 5 / 7 steps) x every index.  chains: every composition of N <= 6 / 8 (in-memory members) and N <= 4 / 6 (file-backed: lazy, "
+    "slices of a shared lazy population, mixed, chain of chains) into <= 4 parts, zeros allowed, x {list, tuple, generator} x every index in "
+    "[-N-1, N] ascending on the bare chain and descending on Population(chain), iteration, partial iteration.  sizes: every population size "
+    "0..16 / 0..64 and every member count 1..48 / 1..200 x 3 size patterns, every index.  populations: every ordered pair of subsets of a 4 / 5 "
+    "file universe for two roots (+ one root, + three roots over 2 / 3 files) x {intersect, plain, check_same} x arguments as list / tuple / "
+    "generator / Populations(iterable) x creation order; len, rows, negative / out-of-range / slices (equal lengths only), iteration, labels, "
+    "to_population in both access orders.  map-transform: real process pool on 3 / 16 layouts x 10 modes.  Non-trivial = at least one tree "
+    "in the container; distinct = distinct case."
 )
 ASSUMPTIONS = [
     "CPython raises the audit event 'open' for every way the library can read a file (open, io.open, os.open); the spy is "
@@ -328,27 +335,33 @@ def expected(acc, view, tags):
     raise ValueError(acc)
 
 
-def do_access(obj, acc):
-    """Run the access on the real container; normalised observation."""
+def do_access(obj, acc, sink=None):
+    """Run the access on the real container; normalised observation.  Returned trees are appended to `sink`."""
     a = acc[0]
+
+    def tg(t):
+        if sink is not None:
+            sink.append(t)
+        return tag_of(t)
+
     try:
         if a == "len":
             return ["len", int(len(obj))]
         if a == "idx":
-            return ["tree", tag_of(obj[acc[1]])]
+            return ["tree", tg(obj[acc[1]])]
         if a == "npidx":
-            return ["tree", tag_of(obj[np.int64(acc[1])])]
+            return ["tree", tg(obj[np.int64(acc[1])])]
         has_iter = hasattr(type(obj), "__iter__")
         if a == "iter":
             if has_iter:
-                return ["trees", [tag_of(t) for t in obj]]
-            return ["trees", [tag_of(obj[i]) for i in range(len(obj))]]
+                return ["trees", [tg(t) for t in obj]]
+            return ["trees", [tg(obj[i]) for i in range(len(obj))]]
         if a == "part":
             j = acc[1]
             if has_iter:
                 it = iter(obj)
-                return ["trees", [tag_of(next(it)) for _ in range(j)]]
-            return ["trees", [tag_of(obj[i]) for i in range(j)]]
+                return ["trees", [tg(next(it)) for _ in range(j)]]
+            return ["trees", [tg(obj[i]) for i in range(j)]]
     except IndexError:
         return ["IndexError"]
     except kernel.CaseTimeout:
@@ -356,6 +369,16 @@ def do_access(obj, acc):
     except BaseException as e:  # noqa: BLE001
         return ["raises", type(e).__name__, str(e)[:200]]
     raise ValueError(acc)
+
+
+KEEP = 4  # trees kept alive along a history and re-inspected after every later operation
+
+
+def snap_tree(t):
+    try:
+        return build.snapshot(t)
+    except Exception as e:  # noqa: BLE001
+        return ("not-a-tree", repr(e)[:80])
 
 
 class _Mark:
@@ -553,7 +576,8 @@ def check_history(case, R):
         def step(s, ev):
             spec, acc = ev
             v0 = R.n_viol
-            p = copy.deepcopy(s["pop"])
+            p, kept = copy.deepcopy((s["pop"], s["kept"]))
+            sink = []
             hist = s["hist"] + [ev]
             ctx = lambda: f"files={[UNIVERSE[f] for f in order]} constructor={variant} history={hist} read-before={sorted(f for _, f in s['loaded'])}"  # noqa: E731
             view = view_of(spec, n)
@@ -564,7 +588,7 @@ def check_history(case, R):
             with watch(sc.dir) as log:
                 try:
                     obj = build_view(p, spec, order)
-                    obs = do_access(obj, acc)
+                    obs = do_access(obj, acc, sink)
                 except kernel.CaseTimeout:
                     raise
                 except BaseException as e:  # noqa: BLE001
@@ -588,17 +612,29 @@ def check_history(case, R):
                 if not isinstance(k, str):
                     counts[order.index(k[1])] += 1
             R.outcome(sk, acc[0], obs[0], len(opened))
+            # trees handed out earlier in this history must still be what they were
+            for t, snap, label in kept:
+                if snap_tree(t) != snap:
+                    R.fail("retained-tree-changed", f"{ctx()}: the tree returned by {label} changed its content during the last operation",
+                           f"retained-tree-changed:{sk}:{acc[0]}")
+            kept = (kept + [[t, snap_tree(t), f"history {hist}"] for t in sink[-2:]])[-KEEP:]
             if R.n_viol > v0:
                 # implementation and model have diverged: the violating state is reported and not expanded
                 R.trans()
                 R.note("bfs-pruned-after-violation")
                 return None
-            return {"pop": p, "loaded": frozenset(s["loaded"] | opened), "counts": tuple(counts), "hist": hist}
+            return {"pop": p, "loaded": frozenset(s["loaded"] | opened), "counts": tuple(counts), "hist": hist, "kept": kept}
 
-        init = {"pop": p0, "loaded": frozenset(loaded0), "counts": tuple(1 if (0, f) in loaded0 else 0 for f in order), "hist": []}
+        init = {"pop": p0, "loaded": frozenset(loaded0), "counts": tuple(1 if (0, f) in loaded0 else 0 for f in order), "hist": [], "kept": []}
         st = kernel.bfs(R, [init], lambda s: events, step, canon, None, max_depth=depth)
         R.note("bfs-fixpoint" if st["fixpoint"] else "bfs-depth-capped")
         R.note("bfs-states", st["states"])
+        # across cases (same worker): a tree handed out here must survive the populations of the next cases
+        if n:
+            with watch(sc.dir):
+                okk, t = R.attempt(lambda: p0[0])
+            if okk:
+                R.retain("first tree of a population", lambda t=t: snap_tree(t))
 
 
 # --------------------------------------------------------------------------- index-slice space
@@ -1020,6 +1056,281 @@ def check_populations(case, R):
                     lambda: f"{octx()}: files read {sorted(loaded)}, files in the populations {sorted(set(flat))}", "open:unrequested:Populations.total")
 
 
+# --------------------------------------------------------------------------- two populations alive at once
+
+def two_events(n0, n1, tier):
+    key = ("two", n0, n1, tier)
+    if key in _EVENTS:
+        return _EVENTS[key]
+    steps = (None, 1, 2, -1)
+    specs = []
+    for w, n in ((0, n0), (1, n1)):
+        specs.append(["base", w])
+        for t in dedup_slices(n, steps):
+            specs.append(["slice", w, *t])
+    for order in ([0, 1], [1, 0], [0, 1, 0]):
+        for wrap in (True, False):
+            specs.append(["chain2", wrap, order])
+    ns = (n0, n1)
+    ev = []
+    for spec in specs:
+        m = len(two_view(spec, ns))
+        for acc in accesses(m):
+            ev.append([spec, acc])
+    _EVENTS[key] = ev
+    return ev
+
+
+def two_view(spec, ns):
+    k = spec[0]
+    if k == "base":
+        return [(spec[1], i) for i in range(ns[spec[1]])]
+    if k == "slice":
+        return [(spec[1], i) for i in list(range(ns[spec[1]]))[sl(spec[2:5])]]
+    if k == "chain2":
+        return [(w, i) for w in spec[2] for i in range(ns[w])]
+    raise ValueError(spec)
+
+
+def check_two(case, R):
+    from swcgeom.core import Population
+    from swcgeom.core.population import ChainTrees
+
+    files = [list(case[0]), list(case[1])]
+    rel, vq, depth, tier = case[2], case[3], int(case[4]), case[5]
+    same = rel == "same-dir"
+    if not files[0] and not files[1]:
+        R.trivial()
+    with Scratch() as sc:
+        spy_selftest(R, sc)
+        got0 = setup_population(R, sc, files[0], "from_swc", r=0, name="dirA")
+        if got0 is None:
+            return
+        if same:
+            rootb = os.path.join(sc.dir, "dirA")
+            order_b = got0[1]
+            paths = [os.path.join(rootb, UNIVERSE[f]) for f in order_b]
+            with watch(sc.dir) as log:
+                ok, q = R.impl(f"construct:{vq}", make_population, vq, rootb, paths)
+            if not ok:
+                return
+            keyof = got0[2]
+            ld = judge_opens(R, f"construct:{vq}", log, keyof, set(), set(), {(0, f) for f in order_b[:1]}, lambda: f"second population over the same directory {files[0]}")
+            got1 = (q, order_b, keyof, ld)
+        else:
+            got1 = setup_population(R, sc, files[1], vq, r=1, name="dirB")
+            if got1 is None:
+                return
+        pops = [got0[0], got1[0]]
+        orders = [got0[1], got1[1]]
+        rtag = [0, 0 if same else 1]
+        ns = (len(orders[0]), len(orders[1]))
+        roots = [(os.path.join(sc.dir, "dirA"), 0)] + ([] if same else [(os.path.join(sc.dir, "dirB"), 1)])
+        keyof = make_keyof(roots)
+        key_of_elem = lambda w, i: (rtag[w], orders[w][i])  # noqa: E731
+        events = two_events(ns[0], ns[1], tier)
+        base_ctx = f"dirA={[UNIVERSE[f] for f in orders[0]]} " + ("second population over the same directory" if same else f"dirB={[UNIVERSE[f] for f in orders[1]]}") + f" constructors=from_swc,{vq}"
+
+        def canon(s):
+            return (files, rel, vq, [sorted(x) for x in s["loaded"]], sorted(s["counts"].items()), [occupancy(x) for x in s["pops"]])
+
+        def build(ps, spec):
+            k = spec[0]
+            if k == "base":
+                return ps[spec[1]]
+            if k == "slice":
+                return ps[spec[1]][sl(spec[2:5])]
+            c = ChainTrees([ps[w].trees for w in spec[2]])
+            return Population(c) if spec[1] else c
+
+        def step(s, ev):
+            spec, acc = ev
+            v0 = R.n_viol
+            ps, kept = copy.deepcopy((s["pops"], s["kept"]))
+            hist = s["hist"] + [ev]
+            ctx = lambda: f"{base_ctx} history={hist} read-before={[sorted(f for _, f in x) for x in s['loaded']]}"  # noqa: E731
+            view = two_view(spec, ns)
+            want, areq = expected(acc, list(range(len(view))), lambda j: list(want_tag(rtag[view[j][0]], orders[view[j][0]][view[j][1]])))
+            sink = []
+            with watch(sc.dir) as log:
+                try:
+                    obj = build(ps, spec)
+                    obs = do_access(obj, acc, sink)
+                except kernel.CaseTimeout:
+                    raise
+                except BaseException as e:  # noqa: BLE001
+                    obs = ["construct-raises", type(e).__name__, str(e)[:200]]
+            obs, want = kernel.jsonable(obs), kernel.jsonable(want)
+            sk = f"two:{spec[0]}" + ("" if spec[0] != "chain2" else ("-pop" if spec[1] else "-raw"))
+            if obs != want:
+                if want == ["IndexError"]:
+                    kl = f"index:out-of-range:{sk}"
+                elif obs[0] in ("raises", "construct-raises", "IndexError"):
+                    kl = f"raises:{sk}:{acc[0]}:{obs[1] if len(obs) > 1 else 'IndexError'}"
+                else:
+                    kl = f"result:{sk}:{acc[0]}"
+                R.fail(f"result:{acc[0]}", f"{ctx()}: got {obs} want {want}", kl)
+            # expected opens: each population reads a requested file once unless IT has read it before
+            exp = collections.Counter()
+            newly = [set(), set()]
+            for j in areq:
+                w, i = view[j]
+                k = key_of_elem(w, i)
+                if k not in s["loaded"][w] and k not in newly[w]:
+                    newly[w].add(k)
+                    exp[k] += 1
+            opt = collections.Counter()
+            if spec[0] == "chain2" and spec[1] and view:
+                w, i = view[0]
+                k = key_of_elem(w, i)
+                if k not in s["loaded"][w] and k not in newly[w]:
+                    opt[k] += 1
+            seen = collections.Counter(keyof(x) for x in log)
+            for k in sorted(set(seen) | set(exp), key=repr):
+                if isinstance(k, str):
+                    R.fail("open:not-a-population-file", f"{ctx()}: opened {k}", f"open:decoy:{sk}")
+                elif seen[k] > exp[k] + opt[k]:
+                    R.fail("open:reload" if exp[k] == 0 else "open:twice", f"{ctx()}: file {k} opened {seen[k]} times, {exp[k]} expected (+{opt[k]} probe)",
+                           f"open:{'reload' if exp[k] == 0 else 'twice'}:{sk}:{acc[0]}")
+                elif seen[k] < exp[k] and obs == want:
+                    R.fail("open:unobserved", f"{ctx()}: file {k} requested through a population that never read it, opened {seen[k]} times, {exp[k]} expected",
+                           f"open:unobserved:{sk}:{acc[0]}")
+            loaded = [set(s["loaded"][0]) | newly[0], set(s["loaded"][1]) | newly[1]]
+            for k in opt:
+                if seen[k] > exp[k]:
+                    loaded[view[0][0]].add(k)
+            counts = dict(s["counts"])
+            for k, c in seen.items():
+                counts[repr(k)] = counts.get(repr(k), 0) + c
+            for t, snap, label in kept:
+                if snap_tree(t) != snap:
+                    R.fail("retained-tree-changed", f"{ctx()}: the tree returned by {label} changed its content during the last operation", f"retained-tree-changed:{sk}:{acc[0]}")
+            kept = (kept + [[t, snap_tree(t), f"history {hist}"] for t in sink[-2:]])[-KEEP:]
+            R.outcome(sk, acc[0], obs[0], sum(seen.values()))
+            if R.n_viol > v0:
+                R.trans()
+                R.note("bfs-pruned-after-violation")
+                return None
+            return {"pops": ps, "loaded": [frozenset(x) for x in loaded], "counts": counts, "hist": hist, "kept": kept}
+
+        l0, l1 = set(got0[3]), set(got1[3])
+        counts0 = collections.Counter([repr(k) for k in l0] + [repr(k) for k in l1])
+        init = {"pops": pops, "loaded": [frozenset(l0), frozenset(l1)], "counts": dict(counts0), "hist": [], "kept": []}
+        st = kernel.bfs(R, [init], lambda s: events, step, canon, None, max_depth=depth)
+        R.note("bfs-fixpoint" if st["fixpoint"] else "bfs-depth-capped")
+        R.note("bfs-states", st["states"])
+        for w in (0, 1):
+            if ns[w]:
+                t = pops[w][0]
+                R.retain(f"first tree of population {w}", lambda t=t: snap_tree(t))
+
+
+# --------------------------------------------------------------------------- size sweeps
+
+
+def flat_tag(e):
+    return [float(100000 + 10 * e), float(100000 + 10 * e + 1), RADIUS]
+
+
+def flat_text(e):
+    b = 100000 + 10 * e
+    return f"1 1 {b} 0 0 {RADIUS:g} -1\n2 3 {b + 1} 0 0 {RADIUS:g} 1\n"
+
+
+def flat_tree(e):
+    from swcgeom.core import Tree
+
+    b = 100000 + 10 * e
+    return Tree(2, id=np.array([0, 1], dtype=np.int32), pid=np.array([-1, 0], dtype=np.int32), type=np.array([1, 3], dtype=np.int32),
+                x=np.array([b, b + 1], dtype=np.float32), y=np.zeros(2, dtype=np.float32), z=np.zeros(2, dtype=np.float32),
+                r=np.full(2, RADIUS, dtype=np.float32))
+
+
+SIZE_PATTERNS = {"ones": (1,), "012": (0, 1, 2), "201": (2, 0, 1)}
+
+
+def check_sizes(case, R):
+    from swcgeom.core import Population
+    from swcgeom.core.population import ChainTrees
+
+    kind = case[0]
+    R.state(case)
+    if kind == "chain":
+        k, pat = int(case[1]), SIZE_PATTERNS[case[2]]
+        sizes = [pat[j % len(pat)] for j in range(k)]
+        N = sum(sizes)
+        e = 0
+        members = []
+        for sz in sizes:
+            members.append([flat_tree(e + i) for i in range(sz)])
+            e += sz
+        ok, c = R.impl("ChainTrees", ChainTrees, (m for m in members) if k % 2 else members)
+        if not ok:
+            return
+        tags = [flat_tag(i) for i in range(N)]
+        ctx = lambda: f"{k} in-memory members of sizes {case[2]} (total {N})"  # noqa: E731
+        for obj, nm in ((c, "chain"), (Population(c), "Population(chain)")):
+            for acc in [["len"]] + [["idx", i] for i in range(-N - 1, N + 1)] + [["iter"]]:
+                want, _ = expected(acc, list(range(N)), lambda i: tags[i])
+                obs = kernel.jsonable(do_access(obj, acc))
+                R.trans()
+                R.check(obs == kernel.jsonable(want), f"result:{acc[0]}", lambda: f"{ctx()}: {nm}{acc} -> {str(obs)[:200]} want {str(want)[:200]}",
+                        f"sizes:chain:{acc[0]}" if want != ["IndexError"] else "index:out-of-range:sizes:chain")
+        R.outcome("chain", min(N, 3))
+        return
+    n = int(case[1])
+    if n == 0:
+        R.trivial()
+    with Scratch() as sc:
+        spy_selftest(R, sc)
+        root = os.path.join(sc.dir, "flat")
+        os.makedirs(root)
+        for e in range(n):
+            with open(os.path.join(root, f"g{e:03d}.swc"), "w") as fh:
+                fh.write(flat_text(e))
+        order = []
+        for r_, _d, fs in os.walk(root):
+            order += [int(f[1:4]) for f in fs if is_swc_name(f)]
+        table = {norm(os.path.join(root, f"g{e:03d}.swc")): (0, e) for e in range(n)}
+        keyof = lambda x: table.get(norm(x), "decoy:" + os.path.basename(x))  # noqa: E731
+        ctx = lambda: f"flat directory of {n} files"  # noqa: E731
+        with watch(sc.dir) as log:
+            ok, p = R.impl("from_swc", Population.from_swc, root)
+        if not ok:
+            return
+        loaded = judge_opens(R, "sizes:construct", log, keyof, set(), set(), {(0, e) for e in order[:1]}, ctx)
+        tags = [flat_tag(e) for e in order]
+        base = list(range(n))
+        sink = []
+        # every index, most distant first (negative then positive), each judged against the files read so far
+        seq = [["len"]] + [["idx", k] for k in range(-n - 1, n + 1)] + [["iter"], ["len"]]
+        for acc in seq:
+            want, req = expected(acc, base, lambda i: tags[i])
+            with watch(sc.dir) as log:
+                obs = kernel.jsonable(do_access(p, acc, sink))
+            R.trans()
+            okr = R.check(obs == kernel.jsonable(want), f"result:{acc[0]}", lambda: f"{ctx()}: p{acc} -> {str(obs)[:200]} want {str(want)[:200]}",
+                          f"sizes:population:{acc[0]}" if want != ["IndexError"] else "index:out-of-range:sizes:population")
+            loaded |= judge_opens(R, f"sizes:{acc[0]}", log, keyof, loaded, {(0, order[i]) for i in req}, set(), ctx, okr)
+        with watch(sc.dir) as log:
+            for t in ((None, None, 2), (None, None, -1), (1, -1, None), (n // 2, None, None), (None, n // 2, 3)):
+                view = base[sl(t)]
+                m = len(view)
+                ok, s_ = R.impl("slice", lambda: p[sl(t)])
+                if not ok:
+                    continue
+                for acc in [["len"]] + [["idx", k] for k in range(-m - 1, m + 1)]:
+                    want, _ = expected(acc, view, lambda i: tags[i])
+                    obs = kernel.jsonable(do_access(s_, acc))
+                    R.trans()
+                    R.check(obs == kernel.jsonable(want), f"result:slice:{acc[0]}", lambda: f"{ctx()}: p[{t[0]}:{t[1]}:{t[2]}]{acc} -> {obs} want {want}",
+                            f"sizes:slice:{acc[0]}" if want != ["IndexError"] else "index:out-of-range:sizes:slice")
+        R.check(log == [], "open:reload", lambda: f"{ctx()}: everything was read, yet slicing opened {sorted(set(log))[:4]}", "open:reload:sizes")
+        R.outcome("population", min(n, 3))
+        for t in sink[:2]:
+            R.retain("tree from a population", lambda t=t: snap_tree(t))
+
+
 # --------------------------------------------------------------------------- map / transform space
 
 
@@ -1225,6 +1536,37 @@ def spaces(tier, seed):
                         bounds={"pair_universe": [UNIVERSE[f] for f in pu], "triple_universe": [UNIVERSE[f] for f in tu], "modes": list(MODES),
                                 "arguments_as": ["list", "tuple", "gen", "ctor-list", "ctor-gen"], "access_orders": ["rows-first", "chain-first"],
                                 "creation_order": "second root's files created in the same / the reverse order"}))
+
+    # two populations alive at once
+    tf = [0, 2] if quick else [0, 2, 1]
+
+    def gen_two():
+        subs = [list(x) for x in S.subsets(tf)]
+        for a in subs:
+            for vq in ("from_swc", "deprecated"):
+                yield [a, a, "same-dir", vq, depth, tier]
+        for a in subs:
+            for b in subs:
+                for vq in ("from_swc", "lazy-gen"):
+                    yield [a, b, "other-dir", vq, depth, tier]
+
+    out.append(Space.of("two-populations", gen_two, check_two, case_timeout=900.0,
+                        bounds={"universe": [UNIVERSE[f] for f in tf], "relations": ["same-dir", "other-dir"], "bfs_depth": depth,
+                                "events": "per population: population and every distinct slice x every access; chains across both populations (3 orders, wrapped / bare) x every access"}))
+
+    # size sweeps
+    n_pop, n_mem = (16, 48) if quick else (64, 200)
+
+    def gen_sizes():
+        for n in range(0, n_pop + 1):
+            yield ["pop", n]
+        for k in range(1, n_mem + 1):
+            for pat in SIZE_PATTERNS:
+                yield ["chain", k, pat]
+
+    out.append(Space.of("sizes", gen_sizes, check_sizes,
+                        bounds={"population_sizes": f"every n in 0..{n_pop} (flat directory)", "chain_members": f"every k in 1..{n_mem} x size patterns {list(SIZE_PATTERNS)}",
+                                "indices": "every index in [-N-1, N]"}))
 
     # map / transform
     if quick:
